@@ -67,6 +67,8 @@ def specs(tier):
     add([('M', .5), ('D1', .5)], omen(OMEN_X, [(1, .25), (2, .25), (3, .125)]), 'levels 1 and 2 tied in one pre-terminal')
     add([('D1', .5), ('M', .5)], omen(OMEN_X, [(1, .5), (2, 0.0), (3, 0.0)]), 'levels 2 and 3 share probability 0.0, last pre-terminal')
     add([('D1', .5), ('M', .5)], omen(OMEN_W, [(1, .5), (2, .25)]), 'several final characters on one level (groups of 2 and 3)')
+    add([('M', .6), ('D1', .4)], omen(OMEN_W, [(1, .25), (2, .25), (3, .125), (4, .125)]), 'two tied groups: levels 1=2 and 3=4')
+    add([('D1', .5), ('M', .5)], omen(OMEN_W, [(1, .5), (2, .125), (3, .125), (4, .125)]), 'levels 2=3=4 tied in one pre-terminal')
     if tier == 'thorough':
         add([('M', .5), ('A1D1', .5)], omen(OMEN_Y, [(1, .25), (2, .0625)]), 'ngram2 three letters')
         add([('A1', .5), ('M', .25), ('D1D1', .25)], omen(OMEN_X, [(1, .5), (2, .25), (3, .125)]), 'three structures')
